@@ -406,7 +406,7 @@ impl Property for C16 {
 		200
 	}
 	fn cases(&self, tier: Tier) -> u64 {
-		tier.pick(300_000, 3_000_000)
+		tier.pick(500_000, 4_000_000)
 	}
 
 	fn run(&self, tape: &[u32], ctx: &mut Ctx) -> CaseResult {
